@@ -61,6 +61,7 @@ class DictDistribution(dict,FiniteDistribution):
     items = dict.items
     values = dict.values
     __or__ = FiniteDistribution.__or__
+    __ior__ = FiniteDistribution.__or__ # otherwise `d |= e` is dict's in-place update, which overwrites instead of mixing
     __and__ = FiniteDistribution.__and__
     __mul__ = FiniteDistribution.__mul__
     __rmul__ = FiniteDistribution.__rmul__
